@@ -26,5 +26,23 @@ while IFS=$'\t' read -r patch obl filter; do
     echo "SELFTEST $patch: expected obligation $obl did not fail"; echo "$out" | grep -E "FAILED|ENGINE|^govc" | head -5; fail=1
   fi
 done < expect.tsv
-echo "selftest: $n mutants, $([ $fail = 0 ] && echo all rejected || echo SOME SURVIVED)"
+# must-pass corpus: behaviour-preserving refactorings (new locals, renamed variables and parameters, reordered
+# disjuncts, a return folded into an expression) applied together must not raise any alarm
+rm -rf "$scratch/repo" "$scratch/work"; mkdir -p "$scratch/repo"
+rsync -a --exclude .git /repo/ "$scratch/repo/"
+nb=0
+for pf in /verif/selftest/benign/*.patch; do
+  if (cd "$scratch/repo" && patch -p1 -s < "$pf" >/dev/null 2>&1); then nb=$((nb+1)); else echo "SELFTEST benign $pf does not apply (stale)"; fail=1; fi
+done
+if (cd "$scratch/repo" && go build ./... >/dev/null 2>&1); then
+  out=$(/verif/bin/govc check --repo "$scratch/repo" --work "$scratch/work" --known /verif/known_findings.json --props C01,C02,C03,C04,C06,C07,C08,C09,C10,C11,C12,C13,C14,C15 --replays "$scratch/replays" 2>&1)
+  if echo "$out" | grep -q "^VIOLATION"; then
+    echo "SELFTEST benign refactorings raised an alarm:"; echo "$out" | grep "^VIOLATION" | cut -c1-200 | head -5; fail=1
+  else
+    echo "selftest ok   $nb benign refactorings applied together: no alarm"
+  fi
+else
+  echo "SELFTEST benign corpus does not compile"; fail=1
+fi
+echo "selftest: $n mutants $([ $fail = 0 ] && echo all rejected, benign corpus quiet || echo -- PROBLEMS, see above)"
 exit $fail
